@@ -150,6 +150,30 @@ fn gen(rng: &mut Rng, max_vars: usize) -> Clauses {
                 }
             }
         }
+        if max_vars >= 8 && rng.chance(1, 5) && !cl.is_empty() {
+            // wide: the occurring variables are spread over up to 200 labels (most indices
+            // unused), so that variable sets span several machine words
+            let nv = clauses_num_vars(&cl);
+            let top = *rng.pick(&[66usize, 70, 129, 140, 200]);
+            let mut pool: Vec<usize> = (0..top).collect();
+            rng.shuffle(&mut pool);
+            let mut lab: Vec<usize> = pool[..nv].to_vec();
+            if rng.bool() {
+                lab.sort();
+            }
+            // keep the word boundaries in play
+            for (i, b) in [63usize, 64, 127, 128].iter().enumerate() {
+                if *b < top && i < nv && rng.bool() && !lab.contains(b) {
+                    lab[i] = *b;
+                }
+            }
+            for c in cl.iter_mut() {
+                for l in c.iter_mut() {
+                    l.0 = lab[l.0];
+                }
+            }
+            return cl;
+        }
         if !cl.is_empty() && clauses_num_vars(&cl) <= max_vars + 2 {
             return cl;
         }
